@@ -223,7 +223,7 @@ def highestbar(
     high = None
     distance = 0
 
-    for idx, index in enumerate(range(index_, index_ - length, -1)):
+    for idx, index in enumerate(range(index_, max(index_ - length, -1), -1)):
         current = reading_by_index(candles, indicator, index)
         if current is None:
             continue
@@ -252,7 +252,7 @@ def lowestbar(
     low = None
     distance = 0
 
-    for idx, index in enumerate(range(index_, index_ - length, -1)):
+    for idx, index in enumerate(range(index_, max(index_ - length, -1), -1)):
         current = reading_by_index(candles, indicator, index)
         if current is None:
             continue
